@@ -77,6 +77,9 @@ def _run_smt(prop, ob):
     return out
 
 
+import threading as _threading
+_CH_SLOTS = _threading.BoundedSemaphore(NCPU)       # at most NCPU CrossHair processes at a time (parts of all obligations share the cores)
+
 _CH_LINE = re.compile(r'^(?P<file>[^:]+):(?P<line>\d+): (?P<kind>error|info): (?P<msg>.*)$')
 
 
@@ -157,8 +160,17 @@ def _crosshair(target, timeout, per_path=None, part=None):
         env['VERIF_PART'] = str(part)
     else:
         env.pop('VERIF_PART', None)
+    _CH_SLOTS.acquire()
+    try:
+        return _crosshair_inner(cmd, env, timeout)
+    finally:
+        _CH_SLOTS.release()
+
+
+def _crosshair_inner(cmd, env, timeout):
+    import threading
     t0 = time.time()
-    stats = dict(paths=0, unknown=0, realized=0, tree='')
+    stats = dict(paths=0, unknown=0, realized=0, tree='', path_timeouts=0)
     p = subprocess.Popen(cmd, stdout=subprocess.PIPE, stderr=subprocess.PIPE, text=True, env=env, cwd=HOME)
     import threading
 
@@ -172,6 +184,8 @@ def _crosshair(target, timeout, per_path=None, part=None):
                 stats['unknown'] += 1
             elif 'SMT realized symbolic' in line:
                 stats['realized'] += 1
+            elif 'Path execution timeout' in line:
+                stats['path_timeouts'] += 1
             elif 'Traceback' in line or 'Error' in line:
                 stats.setdefault('stderr_tail', [])
                 if len(stats['stderr_tail']) < 20:
@@ -204,8 +218,11 @@ def _run_ch(prop, ob, tmpdir):
                   realized=sum(s_['realized'] for _, s_ in runs), tree=' | '.join(s_['tree'] for _, s_ in runs)[:600],
                   exit=max((s_.get('exit') or 0) for _, s_ in runs), stderr_tail=[x for _, s_ in runs for x in s_.get('stderr_tail', [])][:20])
         verdicts = []
-        for o, _ in runs:
-            verdicts.append('cex' if ': error: ' in o else 'confirmed' if 'Confirmed over all paths' in o else 'unmet' if 'Unable to meet precondition' in o else 'open')
+        for o, s_ in runs:
+            v = 'cex' if ': error: ' in o else 'confirmed' if 'Confirmed over all paths' in o else 'unmet' if 'Unable to meet precondition' in o else 'open'
+            if v == 'unmet' and s_['unknown'] == 0 and s_['path_timeouts'] == 0 and not s_.get('hard_timeout'):
+                v = 'empty'         # no path satisfies the preconditions of this part (and none was cut short): an empty cell of the partition
+            verdicts.append(v)
         st['part_verdicts'] = verdicts
     else:
         out, st = _crosshair('%s:%d' % (path, line), ob.timeout)
@@ -235,7 +252,7 @@ def _run_ch(prop, ob, tmpdir):
             model = dict(zip(names, args))
             model.update(kwargs)
             res['model'] = model
-    elif ob.parts > 1 and not all(v == 'confirmed' for v in st['part_verdicts']):
+    elif ob.parts > 1 and not (all(v in ('confirmed', 'empty') for v in st['part_verdicts']) and 'confirmed' in st['part_verdicts']):
         res['note'] = 'parts: %s (search not exhausted in %ss CPU per part; %d paths explored, none failed)' % (','.join(st['part_verdicts']), ob.timeout, st['paths'])
     elif any('Confirmed over all paths' in m for m in infos):
         res['verdict'] = 'unsat'
